@@ -182,6 +182,9 @@ func (fg *FG) call(st *State, cc *ssa.CallCommon, in ssa.Instruction, resultOf s
 				}
 			}
 			benv.old = fg.entrySt
+			if in != nil && in.Block() != nil {
+				benv.local = fg.localResolverAt(in.Block(), in.Block(), st)
+			}
 			for k, sc := range steps {
 				t := benv.tr(sc.E)
 				fg.oblig("assert", fmt.Sprintf("assert:before:%s#%s@%s", c.Key, clauseName(sc, k), label), sc.Tag, fg.guard(), t.T, sc.Src, fmt.Sprintf("%s:%d", sc.File, sc.Line))
@@ -672,6 +675,10 @@ func (fg *FG) frameCheckEntry(st *State, m modEntry, in ssa.Instruction) {
 	}
 	var alts []string
 	alts = append(alts, fmt.Sprintf("(>= %s %s)", l.Ref, fg.alloc0))
+	if m.elems {
+		// an empty region writes nothing
+		alts = append(alts, fmt.Sprintf("(>= %s %s)", m.lo, m.hi))
+	}
 	for _, e := range fg.modset {
 		if e.loc.Heap != l.Heap || e.loc.Kind != l.Kind {
 			continue
